@@ -1,7 +1,7 @@
 (* C19 — formatting is idempotent and meaning-preserving.  Theorems only. *)
 From Coq Require Import List Bool Arith.
 Import ListNotations.
-From V Require Import Base.Bytes Model.Escape Model.Tok Model.Fmt Proofs.FmtP Gen.Sites_C19.
+From V Require Import Base.Bytes Model.Escape Model.Tok Model.Fmt Proofs.FmtP Proofs.TokSim Proofs.FmtSkel Gen.Sites_C19.
 
 (* 1. attribute values: FormatAttr applied to its own output changes nothing - ALL byte strings *)
 Theorem C19_format_attr_idempotent : forall s, format_attr (format_attr s) = format_attr s.
@@ -48,6 +48,16 @@ Theorem C19_block_text_trim : forall voids inlines phrasings fuel depth s,
   fmt_node voids inlines phrasings fuel depth (Text (trimw s)) = fmt_node voids inlines phrasings fuel depth (Text s).
 Proof. exact block_text_trim. Qed.
 Print Assumptions C19_block_text_trim.
+
+(* 6. structure is preserved: for EVERY tree with well-formed names, whatever bytes its text nodes and
+      attribute values hold (quotes, ampersands, comparison operators, mustache expressions with "<"),
+      whichever of the block / inline / compact layouts each element gets, at any depth and for any element
+      tables, tokenizing the formatted text yields exactly the tree's elements in order with their attribute
+      names (void elements without an end tag) *)
+Theorem C19_format_keeps_structure : forall voids inlines phrasings n depth, wf n = true ->
+  skel (snd (run (Data []) (fmt_node voids inlines phrasings (S (depthn n)) depth n))) = fskel voids n.
+Proof. exact fmt_skeleton. Qed.
+Print Assumptions C19_format_keeps_structure.
 
 (* the layout model on an example with every rule: block, phrasing-inline, inline element, void, padded
    attribute value with a quote and an ampersand, mustache with a comparison *)
